@@ -347,21 +347,28 @@ func translate(context Context, args ...Result) (Result, error) {
 		return nil, errBadArgs
 	}
 
-	src := args[0].String()
-	old := args[1].String()
-	new := args[2].String()
+	from := []rune(args[1].String())
+	to := []rune(args[2].String())
+	ret := strings.Builder{}
 
-	for i := range old {
-		r := ""
+	for _, r := range args[0].String() {
+		index := -1
 
-		if i < len(new) {
-			r = string(new[i])
+		for i := range from {
+			if from[i] == r {
+				index = i
+				break
+			}
 		}
 
-		src = strings.Replace(src, string(old[i]), r, -1)
+		if index < 0 {
+			ret.WriteRune(r)
+		} else if index < len(to) {
+			ret.WriteRune(to[index])
+		}
 	}
 
-	return String(src), nil
+	return String(ret.String()), nil
 }
 
 func not(context Context, args ...Result) (Result, error) {
